@@ -198,7 +198,7 @@ def subprocess_runs(chk, n):
 def run(tier, seed, replay=None):
     assert_repo_import()
     chk = Check("C03", tier, seed)
-    model_ok = chk.proof_stage(["Scope/ScanFile.vo"])
+    model_ok = chk.proof_stage(["Scope/ScanFile.vo", "Scope/TotalCerts.vo"])
     per_lang, chunks = (240, 4) if tier == "quick" else (6000, 40)
     tmp = tempfile.mkdtemp(prefix="verif_c03_")
     model_cases = []
